@@ -537,6 +537,70 @@ def oracle_C05(scn, tr):
 
 
 # ---------------------------------------------------------------- C06
+def split_fields(text):
+    """top-level comma-separated fields of a response's argument text (quotes and backslash escapes respected)"""
+    fields, cur, inq, esc = [], bytearray(), False, False
+    for b in text:
+        if inq:
+            cur.append(b)
+            if esc:
+                esc = False
+            elif b == 0x5c:
+                esc = True
+            elif b == 0x22:
+                inq = False
+        elif b == 0x22:
+            inq = True
+            cur.append(b)
+        elif b == 0x2c:
+            fields.append(bytes(cur)); cur = bytearray()
+        else:
+            cur.append(b)
+    fields.append(bytes(cur))
+    return fields
+
+
+def oracle_C06_fields(scn, tr):
+    """the response text a command-side READ handler is first invoked with is NAME= followed by exactly one
+    field per variable of the command, whatever the event machine is doing meanwhile"""
+    fails = []
+    last = {}
+    pool = scn.pool()
+    for l in tr:
+        t = l.split()
+        if t[0] == 'H' and t[1] == 'r' and t[2] == '0':
+            ci = int(t[3])
+            first = last.get(ci) not in (1, 2)
+            last[ci] = int(t[-1])
+            if not first or ci >= len(pool):
+                continue
+            c = pool[ci]
+            text = unhex(t[4])[:int(t[5])]
+            head = c.name.encode('latin-1') + b'='
+            if not c.vars or not any(v.access in (RW, RO) for v in c.vars):
+                continue
+            if not text.startswith(head):
+                fails.append('read handler of %s first invoked with %r (expected the text to start with %r)' % (c.name, text, head))
+                continue
+            nf = len(split_fields(text[len(head):]))
+            if nf != len(c.vars):
+                fails.append('read handler of %s first invoked with %r: %d fields for %d variables' % (c.name, text, nf, len(c.vars)))
+        elif t[0] == 'H' and t[1] == 'w' and scn.meta.get('family') == 'overlap':
+            # family overlap: all variables are plain numeric and the line gives one value per variable
+            ci = int(t[2])
+            data, ln_, an = unhex(t[3]), int(t[4]), int(t[5])
+            nf = len(split_fields(data[:ln_]))
+            if an != nf:
+                fails.append('write handler of %s received %r with args_num %d (the line has %d fields)' % (pool[ci].name, data[:ln_], an, nf))
+    if scn.meta.get('family') == 'overlap' and fully_drained(scn, tr):
+        # every accepted line of this family is answered OK (nothing can fail), and every variable read
+        # callback runs exactly once per variable per response
+        out = bytes(x for x in out_bytes(tr) if x != 13)
+        if b'ERROR' in out:
+            fails.append('a line of the overlap family was answered ERROR: %r' % out[:120])
+    return fails
+
+
 def oracle_C06(scn, tr):
     lines, problems, pending = segment(scn, tr)
     fails = []
@@ -1328,9 +1392,40 @@ def advertised(c):
     return forms
 
 
+def oracle_C19_events(scn, tr):
+    """family testev (no command input): every accepted TEST trigger of a command without test handler produces
+    the unit LF <TEST text of the descriptor> LF if the text fits the event buffer, and nothing otherwise; in
+    acceptance order"""
+    if any(l.startswith('> f ') for l in tr) or not fully_drained(scn, tr) or event_side_hold(tr):
+        return []
+    usz = scn.usz()
+    exp = b''
+    pool = scn.pool()
+    cur = None
+    for l in tr:
+        t = l.split()
+        if t[0] == '>' and t[1] == 't':
+            cur = (int(t[2]), int(t[3]))
+        elif t[0] == '=' and t[1] == 't' and cur is not None:
+            if t[2] == '0' and cur[1] == T_TEST:
+                c = pool[cur[0]]
+                if c.t:
+                    return []            # handler-driven units are judged by C10/C11
+                text = ref_test_text(c, '\n')
+                if text is not None and len(text) < usz:
+                    exp += b'\n' + text.encode('latin-1') + b'\n'
+            elif t[2] == '0':
+                return []
+            cur = None
+    out = out_bytes(tr)
+    if out != exp:
+        return ['TEST events: output %r, the descriptor says %r' % (out[:200], exp[:200])]
+    return []
+
+
 def oracle_C19(scn, tr):
     if any(l.startswith('> t ') or l.startswith('I t ') for l in tr):
-        return []
+        return oracle_C19_events(scn, tr) if scn.meta.get('family') == 'testev' else []
     lines, problems, pending = segment(scn, tr)
     fails = []
     asz = scn.asz()
